@@ -189,7 +189,8 @@ fn truncate_json(v: &Value, budget: usize) -> Value {
     if s.len() <= budget {
         v.clone()
     } else {
-        json!({ "truncated_json": format!("{}…", &s[..budget.min(s.len())]), "full_len": s.len() })
+        let cut: String = s.chars().take(budget).collect();
+        json!({ "truncated_json": format!("{}…", cut), "full_len": s.len() })
     }
 }
 
@@ -369,10 +370,14 @@ fn run_shard<E: Check>(
     });
     match result {
         Ok(()) => {}
-        Err(TestError::Fail(_, bytes)) => {
+        Err(TestError::Fail(reason, bytes)) => {
             let mut g = Gen::new(&bytes);
             let case = check.generate(&mut g);
-            let sig = first_sig.borrow().clone().unwrap_or_default();
+            let Some(sig) = first_sig.borrow().clone() else {
+                // not an oracle failure: something panicked outside the guarded call
+                out.borrow_mut().failures.push((Failure::new("harness:panic-outside-check", format!("proptest reports: {}", reason)), serde_json::to_value(&case).unwrap_or(Value::Null)));
+                return out.into_inner();
+            };
             let (min, f2) = shrink_structural(&check, case, &sig, 3000);
             out.borrow_mut()
                 .failures
@@ -527,6 +532,7 @@ pub fn run_check<E: Check>(opts: Opts) -> i32 {
     let mut samples: Vec<Value> = vec![];
     let mut excluded: BTreeMap<String, u64> = BTreeMap::new();
     let mut seen_sigs: BTreeSet<String> = BTreeSet::new();
+    let mut harness_problem = false;
     for o in outs {
         evaluations += o.evaluations;
         for (k, v) in o.labels {
@@ -542,6 +548,12 @@ pub fn run_check<E: Check>(opts: Opts) -> i32 {
             *excluded.entry(k).or_insert(0) += v;
         }
         for (f, case) in o.failures {
+            if f.signature.starts_with("harness:") {
+                // a defect of the machinery itself is never reported as a violation
+                println!("INCONCLUSIVE property={} harness problem [{}]: {}", id, f.signature, f.message);
+                harness_problem = true;
+                continue;
+            }
             if seen_sigs.insert(f.signature.clone()) {
                 let p = write_replay(&opts.root, id, &f, &case);
                 println!("failure [{}]: {}", f.signature, f.message);
@@ -611,6 +623,9 @@ pub fn run_check<E: Check>(opts: Opts) -> i32 {
             println!("VIOLATION property={} replay={}", id, p.display());
         }
         return 1;
+    }
+    if harness_problem {
+        return 2;
     }
     let floor = if opts.tier.is_thorough() {
         spec.floor_quick * 2
